@@ -119,6 +119,7 @@ func (s Socket) Read(p []byte) (n int, err error) {
 	if n > 0 {
 		return
 	}
+	verifSocketGap(s)
 
 	// timeout
 	// close (io.EOF)
